@@ -69,7 +69,11 @@ def run_case(ctx, rng, h):
     real = Real()
     docs_xml = [c01.gen_doc(rng) for _ in range(rng.choice([1, 1, 2]))]
     for x in docs_xml:
-        real.docs.append(Document(x))
+        # some documents are loaded with whitespace reduction: a clone must not be reduced again after later edits
+        if rng.random() < 0.3:
+            real.docs.append(Document(x, parser_options=impl.ParserOptions(reduce_whitespace=True)))
+        else:
+            real.docs.append(Document(x))
     keep = c01.gen_pool(rng)
     real.dump_world()
     for o in keep:
@@ -274,6 +278,22 @@ def check_guard(ctx, rec, val):
                 return
 
 
+def wide_case(ctx, n):
+    """a node with very many direct children is cloned like any other"""
+    ctx.count(1, "wide-clone")
+    root = Document("<w>" + "<c/>t" * (n // 2) + "</w>").root
+    try:
+        c = root.clone(deep=True)
+    except RecursionError as e:
+        ctx.fail("deep clone of a node with %d children raises RecursionError" % n, {"children": n, "classes": []}, classify)
+        return
+    with altered_default_filters():
+        a = [(type(x).__name__, getattr(x, "content", getattr(x, "local_name", None))) for x in root.iterate_children()]
+        b = [(type(x).__name__, getattr(x, "content", getattr(x, "local_name", None))) for x in c.iterate_children()]
+    if a != b:
+        ctx.fail("deep clone of a node with %d children differs" % n, {"children": n, "classes": []}, classify)
+
+
 def replay_open(f):
     return c01.replay_open(f)
 
@@ -284,6 +304,7 @@ def run(ctx, args):
     ctx.build("Props/C10.vo")
     quick = ctx.tier == "quick"
     with no_gc():
+        wide_case(ctx, 800 if quick else 1200)
         for b in range(1 if quick else 10):
             recs = [run_case(ctx, ctx.rng, b * 1000 + h) for h in range(220 if quick else 300)]
             terms = []
